@@ -264,6 +264,8 @@ OnSpawn(g, e) ==
             \* ... and it is not, at the same time, a documented error for a cause that does not apply
             \cup Chk("C09.err", e.r, (~okRes /\ causes # {}) => (SeqSet(e.isa) \cap SpawnErrors \subseteq causes))
             \cup Chk("C09.noeffect", e.r, ~okRes => SameObs(g, e))
+            \* ... and the argument iterable of a rejected request was not touched (neither __iter__ nor __next__)
+            \cup Chk("C09.noeffect", e.r, (~okRes /\ Has(e, "iters")) => e.iters = 0)
             \* a request without an explicit name can never collide with a live group
             \cup Chk("C10.names", e.r, (~okRes /\ ~e.named) => "InvalidGroupName" \notin SeqSet(e.isa))
             \* a rejected start() must not even consume a group index: the next accepted one continues the count
